@@ -1,21 +1,23 @@
 #!/usr/bin/env python3
-"""keep_refactoring.py <ID>: file the behaviour-preserving refactorings a sub-agent left in /tmp/seed/<ID>r/out as
+"""keep_refactoring.py <ID> [offset]: file the behaviour-preserving refactorings a sub-agent left in /tmp/seed/<ID>r/out as
 /verif/refactorings/<ID>-<k>/ (patch.diff, same.py, before/after output, meta.json).  Each is a must-stay-silent variant of
 the self-test for every registered check; `allowed_errors` lists checks that may answer exit 2 (analysis cannot read the new
 form) - recorded, never a verdict."""
 import json, os, shutil, subprocess, sys
 VERIF = os.path.dirname(os.path.dirname(os.path.abspath(__file__)))
 pid = sys.argv[1]
+off = int(sys.argv[2]) if len(sys.argv) > 2 else 0  # second round: offset 4 -> <ID>-5..8
 src = f"/tmp/seed/{pid}r/out"
 meta = json.load(open(os.path.join(src, "meta.json")))
-for k, m in enumerate(meta, 1):
-    patch = os.path.join(src, f"refactor_{k}.diff")
+for k0, m in enumerate(meta, 1):
+    k = k0 + off
+    patch = os.path.join(src, f"refactor_{k0}.diff")
     if not os.path.exists(patch):
         continue
     d = os.path.join(VERIF, "refactorings", f"{pid}-{k}")
     os.makedirs(d, exist_ok=True)
     shutil.copy(patch, os.path.join(d, "patch.diff"))
-    for a, b in ((f"same_{k}.py", "same.py"), (f"same_{k}.before.txt", "same.before.txt"), (f"same_{k}.after.txt", "same.after.txt")):
+    for a, b in ((f"same_{k0}.py", "same.py"), (f"same_{k0}.before.txt", "same.before.txt"), (f"same_{k0}.after.txt", "same.after.txt")):
         if os.path.exists(os.path.join(src, a)):
             shutil.copy(os.path.join(src, a), os.path.join(d, b))
     r = subprocess.run(["python3", os.path.join(VERIF, "tools", "seed_checks.py"), patch], capture_output=True, text=True)
